@@ -52,21 +52,20 @@ SLICES = {
     },
     "thorough": {
         "suffix": S(["a", "ba", "ab", "c"], graph=8),
-        "digit": S(["a", "a0", "a1", "a2"], reps=("none", "n2", "n3"), graph=8),
+        "digit": S(["a", "a0", "a1", "a2"], reps=("none", "n3"), graph=8),
         "misc": S(["x.y", "a-b", "a.b", "c"], graph=8),
-        "stages": S(["a", "c"], stages=(0, 1), reps=("none", "n2", "vs"), graph=8),
-        "shape": S(["p", "q", "r", "s"], reps=("none", "n2", "n3"), spell=("rel",), orders=("fwd", "rev"), comps=4, fixed=True,
-                   graph=8),
+        "stages": S(["a", "c"], stages=(0, 1), reps=("none", "n2", "vs"), aggs=(False,), graph=8),
+        "stages2": S(["a", "c"], stages=(0, 1), graph=8),
+        "shape": S(["p", "q", "r", "s"], reps=("none", "n2"), spell=("rel",), orders=("fwd", "rev"), comps=4, fixed=True, graph=8),
         "shape3": S(["p", "q", "r"], reps=("none", "n1", "n2", "n3"), spell=("rel", "abs"), orders=("fwd", "rev"), fixed=True,
-                    styles=("same", "flip"), graph=4),
+                    styles=("same", "flip"), graph=8),
         "vars": S(["p", "q", "r"], stages=(0, 1), reps=ALL_REPS, aggs=(False,), spell=("abs",), comps=3, refs=1, fixed=True,
                   graph=4),
         "vars2": S(["p", "q"], stages=(0, 1), reps=ALL_REPS, spell=("abs",), comps=2, fixed=True),
         "refs": S(["p", "q"], paths=("", "out.txt", "d/f.x"), methods=("ref", "copy", "output", "link", "copyout", "extract"),
                   styles=("same", "flip", "tail", "tail2"), comps=2, refs=1, fixed=True),
         "many": S(["p", "q", "r"], reps=("none", "n11"), comps=3, spell=("rel",), fixed=True, graph=4),
-        "refs3": S(["a", "ba", "c"], paths=("", "out.txt"), styles=("same", "tail"), spell=("rel", "abs"), aggs=(True, False),
-                   graph=8),
+        "refs3": S(["a", "ba", "c"], paths=("", "out.txt"), styles=("same", "tail"), spell=("rel",), graph=8),
     },
 }
 
